@@ -4,6 +4,9 @@
 //! case stall <seed> <i> n=<N> order=<before|after|half>
 //! stalled <yes|no> published=<k>
 //! regs sent=<N> acked=<m>
+//! (then: a zero-window peer asks for two roles of the wrong pattern on the stalled topic and never reads;
+//!  the probing client asks for 5 more subscriptions on the stalled topic in the background, over the
+//!  connection it then uses for the probes)
 //! probe ps -> ok|fail:<text>
 //! probe rr -> ok|fail:<text>
 //! end
@@ -134,8 +137,45 @@ pub async fn run_case(seed: u64, i: u64, out: &mut String) {
     // give the registrations time to pile up on the stalled topic
     tokio::time::sleep(Duration::from_millis(1200)).await;
     let _ = writeln!(out, "regs sent={} acked={}", n, acked.load(Ordering::SeqCst));
+    // a peer that grants the server no credit on its streams asks for roles the stalled topic
+    // cannot give (request/reply on a pub/sub topic) and never reads the refusals
+    let mute = RawPeer::connect_with(addr, &certs.client("ca.der"), Some((der(&certs.client("localhost.der")), der(&certs.client("localhost.key.der")))), Some(0)).await;
+    let mut mute_streams = vec![];
+    if let Ok(m) = &mute {
+        for k in 0..2 {
+            if let Ok(mut st) = m.open().await {
+                let _ = tokio::time::timeout(Duration::from_millis(500), st.send(frame_of(if k == 0 { "regreq" } else { "regrep" }, &ns, &tp, 0, &mut r))).await;
+                mute_streams.push(st);
+            }
+        }
+    }
+    tokio::time::sleep(Duration::from_millis(200)).await;
+    // the probing client first asks, in the background, for more subscriptions on the stalled topic
+    // over the very connection it then uses for the other topics
+    let probe_client = connect_client(addr, &certs, BackoffStrategy::constant().with_max_attempts(0)).await;
+    let probe_client = match probe_client {
+        Ok(c) => c,
+        Err(e) => {
+            let _ = writeln!(out, "harness_error probe_connect:{:?}", e);
+            return;
+        }
+    };
+    let mut background = vec![];
+    for _ in 0..5 {
+        let c = probe_client.clone();
+        let topic_a = format!("/{}/{}", ns, tp);
+        background.push(tokio::spawn(async move {
+            use selium::prelude::*;
+            use selium::std::codecs::StringCodec;
+            let s = c.subscriber(&topic_a).with_decoder(StringCodec).open().await;
+            // keep whatever was opened alive
+            tokio::time::sleep(Duration::from_secs(30)).await;
+            drop(s);
+        }));
+    }
+    tokio::time::sleep(Duration::from_millis(400)).await;
     let res_ps = match tokio::time::timeout(Duration::from_millis(6000), async {
-        let client = connect_client(addr, &certs, BackoffStrategy::constant().with_max_attempts(0)).await.map_err(|e| format!("connect:{:?}", e))?;
+        let client = probe_client.clone();
         probe_pubsub(&client, &format!("/{}/topic-b{}", ns, i)).await
     })
     .await
@@ -161,6 +201,11 @@ pub async fn run_case(seed: u64, i: u64, out: &mut String) {
         Err(e) => format!("fail:{}", e.replace([' ', '\n'], "_").chars().take(80).collect::<String>()),
     });
     let _ = writeln!(out, "end");
+    for b in background {
+        b.abort();
+    }
+    drop(mute_streams);
+    drop(mute);
     drop(peers);
     drop(sub_st);
     drop(pub_st);
